@@ -235,6 +235,13 @@ fn check_tape(tape: &[u8], gates: &Gates, stats: &mut Stats, counting: bool, cli
         let copy = chunks[d].clone();
         chunks.push(copy);
     }
+    // a chunk that declares nothing (a comment, blank lines, nothing at all): in the partitions it
+    // becomes a file of its own - first, in the middle or last - and a file without declarations
+    // changes nothing about the set
+    let declaration_less = choice.ratio(1, 3) && gates.want("FILE_WITHOUT_DECLARATIONS");
+    if declaration_less {
+        chunks.push((*choice.pick(&["(* notes only *)\n", "\n\n", "", "(* a *) (* b *)"])).to_string());
+    }
     let n = chunks.len();
     let canonical = Arrangement { files: vec![(0..n).collect()] };
     let base = observe_analyze(&canonical, &chunks).map_err(|(k, d)| Failure::new("canonical", &k, d, json!({"chunks": chunks})))?;
@@ -351,6 +358,9 @@ fn check_tape(tape: &[u8], gates: &Gates, stats: &mut Stats, counting: bool, cli
         stats.class(if single_fault { "unit.single-fault" } else if duplicate { "unit.duplicated-declaration" } else { "unit.valid" });
         if recased {
             stats.class("unit.identifiers-recased");
+        }
+        if declaration_less {
+            stats.class("unit.with-declaration-less-chunk");
         }
         stats.absorb_gates(gates);
         if stats.samples.len() < 3 {
